@@ -1,8 +1,9 @@
 ID = "C04"
 GO_CMD = "c04"
-GEN = ["Gen/GenC04.v"]
+GEN = ["Gen/GenC04.v", "Gen/GenPkg.v"]
+DEPS = ["Pkg"]
 DRIVE_ARGS = ["-prop", "C04"]
-MODEL_VO = ["theories/C04/Spec.vo"]
+MODEL_VO = ["theories/C04/Spec.vo", "theories/C04/PkgLeg.vo"]
 PROOF_VO = ["theories/C04/Props.vo"]
 PROPS_V = "theories/C04/Props.v"
 EXTRACT = "extract/C04.v"
